@@ -42,6 +42,9 @@ contract(A + 'ThreadPool._get_results', props=['C15'],
          types=dict(next_result='int', results='dict[int,opaque]', raise_exceptions='bool'),
          returns='list[opaque]', default_callee='opaque',
          opaque_spec={'_fetch_results': {'make': _make_arrivals, 'raises': ['Exception'], 'pure': True}},
+         # (the arrival sequence is modelled here as an arbitrary injective sequence; _fetch_results' own contract says that it
+         # hands on exactly what the queue delivers)
+         opaque=['_fetch_results'],
          raises={'Exception': True},
          requires=[
              'arr_len() >= 0',
@@ -286,3 +289,46 @@ contract(A + '_result_iter', props=['C15'],
                                                  'implies(not use_result_objects, forall(lambda m: implies(0 <= m < _k, yielded[m] == results[m])))'],
                         body_trace=[_wrap_item])},
          must_fail='len(result) == 0')
+
+
+# ---- ThreadPool._fetch_results: every queued result is handed on, once, as it came; failures end the run only in raise mode ---------
+def _fetched_is_yielded(ex, st, k):
+    import z3
+    evs_ = st.trace[getattr(st, 'iter_start_trace', 0):]
+    pre = st.iter_start_state
+    gets = [e for e in evs_ if e.name == 'get']
+    y0, y1 = pre.yielded, st.yielded
+    h = st.heap[st.env['self'].ref]
+    ok = len(gets) == 1 and gets[0].recv is not None and gets[0].recv.t.eq(h['result_queue'].t) and not gets[0].args
+    g = z3.BoolVal(bool(ok))
+    if ok:
+        out = y1.elem(y0.length())
+        g = z3.And(g, y1.length() == y0.length() + 1, out.t == gets[0].result.t if hasattr(out, 't') else z3.BoolVal(False),
+                   z3.BoolVal(not [e for e in evs_ if e.name in ('shutdown', 'ThreadPool.shutdown')]))
+    yield ('each_result_taken_once_and_handed_on', g,
+           'one result_queue.get() per step; that very (index, value) pair is yielded next; nothing is dropped, duplicated or reordered here')
+
+
+def _failure_stops_pool(ex, st, k, pre, exc):
+    import z3
+    evs_ = st.trace[getattr(st, 'iter_start_trace', 0):]
+    sh = [e for e in evs_ if e.name in ('shutdown', 'ThreadPool.shutdown')]
+    raise_mode = ex.truth(st, st.env['raise_exceptions'])
+    ok = len(sh) == 1 and 'force' in sh[0].kwargs
+    g = z3.And(z3.BoolVal(bool(ok)), raise_mode)
+    if ok:
+        g = z3.And(g, ex.truth(st, sh[0].kwargs['force']))
+    yield ('failure_raised_only_in_raise_mode_after_forced_shutdown', g,
+           "the exception of a failed item is re-raised only in raise mode, after shutdown(force=True) emptied the queues (no worker "
+           'keeps running for a request that already failed)')
+
+
+cls(A + 'ThreadPool', fields=dict(pool_size='int', task_queue='opaque', result_queue='opaque', pool='opaque'))
+contract(A + 'ThreadPool._fetch_results', props=['C15'],
+         types=dict(raise_exceptions='bool'), returns='list[opaque]', default_callee='opaque',
+         opaque_spec={'empty': {'returns': 'bool', 'pure': True}, 'get': {}, 'shutdown': {}, 'with_traceback': {'pure': True},
+                      'isinstance': {'returns': 'bool', 'pure': True}},
+         opaque=['shutdown'],
+         raises={'Exception': 'raise_exceptions'},
+         loops={0: dict(yield_type='opaque', inv=[], types={'task_result': 'opaque'}, body_trace=[_fetched_is_yielded],
+                        raise_trace=[_failure_stops_pool])})
